@@ -35,6 +35,9 @@ def main(argv=None):
     a = ap.parse_args(argv)
     seed = a.seed if a.seed is not None else int(os.environ.get("VERIF_SEED", "0") or 0)
     prop = a.prop.upper()
+    if os.environ.get("PV_APICOV"):                 # diagnostic: which argument classes does this run exercise?
+        from . import apicov
+        apicov.install(os.environ["PV_APICOV"])
     mod = importlib.import_module(f"pv.props.{prop.lower()}")
     if a.replay:
         with open(a.replay) as f:
